@@ -90,6 +90,28 @@ def build_partition():
     return out
 
 
+def build_cnt_updates():
+    """cnt under a single-position update and under pointwise equality (used for the size accounting of C08)."""
+    A = z3.ArraySort(I, I)
+    g = z3.Function('cnt', A, I, I, I)
+    a, b = z3.Const('a', A), z3.Const('b', A)
+    k, m, n, p, v, s = z3.Ints('k m n p v s')
+    unfold = lambda arr, j: g(arr, k, j + 1) == g(arr, k, j) + z3.If(z3.Select(arr, j) == k, 1, 0)
+    delta = z3.If(v == k, 1, 0) - z3.If(z3.Select(a, p) == k, 1, 0)
+    stmt = lambda j: g(b, k, j) == g(a, k, j) + z3.If(j > p, delta, 0)
+    upd = [b == z3.Store(a, p, v), p >= 0]
+    out = [('cnt-store:base', upd + [g(a, k, 0) == 0, g(b, k, 0) == 0], stmt(z3.IntVal(0))),
+           ('cnt-store:step', upd + [m >= 0, unfold(a, m), unfold(b, m), stmt(m)], stmt(m + 1))]
+    same = z3.ForAll([s], z3.Implies(z3.And(0 <= s, s < n), z3.Select(a, s) == z3.Select(b, s)))
+    out.append(('cnt-ext:base', [g(a, k, 0) == 0, g(b, k, 0) == 0], g(a, k, 0) == g(b, k, 0)))
+    out.append(('cnt-ext:step', [same, 0 <= m, m < n, unfold(a, m), unfold(b, m), g(a, k, m) == g(b, k, m)], g(a, k, m + 1) == g(b, k, m + 1)))
+    # cnt(a, k, n) <= n  (a cluster cannot own more points than there are)
+    out.append(('cnt-upper:base', [g(a, k, 0) == 0], g(a, k, 0) <= 0))
+    out.append(('cnt-upper:step', [m >= 0, unfold(a, m), g(a, k, m) <= m], g(a, k, m + 1) <= m + 1))
+    return out
+
+
+S.lemma('cnt-updates', ['C08'], build_cnt_updates)
 S.lemma('sums', ['C07', 'C04', 'C10', 'C02', 'C18', 'C13', 'C06', 'C16'], build_sums)
 S.lemma('tri-rank', ['C11', 'C02'], build_tri_rank)
 S.lemma('toeplitz-partition', ['C11', 'C02'], build_partition)
